@@ -208,6 +208,8 @@ pub struct Scenario {
     pub lock_majority: Vec<u8>,
     /// MEMBER: also offer one MsgPropose carrying [normal, conf change]
     pub mix_proposals: bool,
+    /// nodes that stay down once crashed (no Restart action)
+    pub down_forever: Vec<u8>,
     pub note: String,
 }
 
@@ -238,6 +240,7 @@ impl Scenario {
             group_commit: false,
             lock_majority: vec![],
             mix_proposals: false,
+            down_forever: vec![],
             note: String::new(),
         }
     }
